@@ -768,6 +768,166 @@ class CommitRun:
                 "commits": commits, "tip": self.tip}
 
 
+# --------------------------------------------------------------------------- concurrent pushes to one branch
+class PushRun:
+    """n actors push a commit of their own (child of the branch's current commit c0, or a first commit for a branch
+    that does not exist yet) to the SAME branch of one target repository at once -- over the in-process local
+    transport (LocalGitClient.send_pack) or through the server's ReceivePackHandler (plain, or atomic with a second,
+    uncontended ref).  'Every push reported as successful is contained in the final branch history.'"""
+    BR = b"refs/heads/master"
+    NEW = b"refs/heads/brand-new"
+    OTHER = b"refs/heads/side"
+
+    def __init__(self, ctx, kind, n, packed=False):
+        from dulwich.objects import Tree
+        from dulwich.repo import Repo
+        self.ctx, self.kind, self.n = ctx, kind, n
+        self.base = ctx.tmpdir("c08push")
+        self.root = os.path.join(self.base, "target")
+        os.makedirs(self.root)
+        r = Repo.init(self.root)
+        t = Tree()
+        r.object_store.add_object(t)
+        self.tree_id = t.id
+        kw = dict(committer=b"a <a@b>", author=b"a <a@b>", commit_timezone=0, author_timezone=0, tree=t.id)
+        self.c0 = r.get_worktree().commit(message=b"c0", commit_timestamp=1, author_timestamp=1, **kw)
+        r.refs[self.BR] = self.c0
+        r.refs[self.OTHER] = self.c0
+        if packed:
+            r.refs.pack_refs(all=True)
+        self.create = kind.endswith("create")
+        self.ref = self.NEW if self.create else self.BR
+        # one source repository per pusher, outside the interposed directory
+        self.src, self.mine = [], []
+        for a in range(n):
+            sp = os.path.join(self.base, f"src{a}")
+            os.makedirs(sp)
+            sr = Repo.init(sp)
+            sr.object_store.add_object(t)
+            sr.object_store.add_object(r.object_store[self.c0])
+            sr.refs[self.BR] = self.c0
+            from dulwich.objects import Commit
+            cm = Commit()
+            cm.tree = t.id
+            cm.parents = [self.c0]
+            cm.author = cm.committer = b"a <a@b>"
+            cm.author_time = cm.commit_time = 10 + a
+            cm.author_timezone = cm.commit_timezone = 0
+            cm.message = b"pushed by %d" % a
+            sr.object_store.add_object(cm)
+            ca = cm.id
+            self.src.append(sp)
+            self.mine.append(ca)
+            sr.close()
+        r.close()
+        self.world = sched.World(self.root, yield_pred=refpath_pred,
+                                 yield_ops={"open_excl", "open_r", "replace", "unlink", "stat", "fclose", "fwrite"})
+        self.ops = []
+        self.idx = {self.c0: 1}
+
+    def cid(self, sha):
+        if sha not in self.idx:
+            self.idx[sha] = len(self.idx) + 1
+        return self.idx[sha]
+
+    def _wire(self, a, src, atomic):
+        from io import BytesIO
+        from dulwich.pack import write_pack_data
+        from dulwich.protocol import ReceivableProtocol, pkt_line
+        from dulwich.repo import Repo
+        from dulwich.server import DictBackend, ReceivePackHandler
+        count, recs = src.generate_pack_data({self.c0}, {self.mine[a]})
+        pk = BytesIO()
+        write_pack_data(pk.write, recs, src.object_format, num_records=count)
+        Z = b"0" * 40
+        old = Z if self.create else self.c0
+        caps = b"report-status" + (b" atomic" if atomic else b"")
+        req = pkt_line(old + b" " + self.mine[a] + b" " + self.ref + b"\0" + caps + b"\n")
+        if atomic:
+            req += pkt_line(self.c0 + b" " + self.mine[a] + b" " + self.OTHER + b"\n")
+        req += pkt_line(None) + pk.getvalue()
+        inp, out = BytesIO(req), BytesIO()
+        tgt = Repo(self.root)
+        try:
+            ReceivePackHandler(DictBackend({"/": tgt}), ["/"], ReceivableProtocol(inp.read, out.write)).handle()
+        finally:
+            tgt.close()
+        ans = out.getvalue()
+        return (b"ok " + self.ref) in ans, ans[-160:]
+
+    def actor(self, a):
+        def body():
+            from dulwich.client import LocalGitClient
+            from dulwich.repo import Repo
+            src = Repo(self.src[a])
+            rec = {"k": "set_if_equals", "n": 1, "via": 0, "old": 0 if self.create else 1, "new": self.cid(self.mine[a]), "res": 0,
+                   "exc": False, "a": a, "name": "push"}
+            self.world.note("call")
+            rec["c"] = self.world.seq
+            try:
+                if self.kind.startswith("local"):
+                    def update_refs(refs):
+                        # a well-behaved pusher: only a fast-forward of what the target advertises right now
+                        now = refs.get(self.ref)
+                        if (now is not None) if self.create else (now != self.c0):
+                            raise RuntimeError("non-fast-forward: the branch moved")
+                        return {self.ref: self.mine[a]}
+                    res = LocalGitClient().send_pack(self.root, update_refs, src.generate_pack_data)
+                    st = (res.ref_status or {}).get(self.ref)
+                    ok, why = st is None, st
+                else:
+                    ok, why = self._wire(a, src, atomic=(self.kind.startswith("wire-atomic") and a == 0))
+                if ok:
+                    rec["res"] = 1
+                else:
+                    rec["exc"] = True          # a refused push: a legitimate loser, must have had no effect
+                    rec["excname"] = f"refused:{why!r}"[:80]
+            except BaseException as e:
+                rec["exc"] = True
+                rec["excname"] = type(e).__name__
+                e.__traceback__ = None
+            finally:
+                src.close()
+            self.world.note("retop")
+            rec["r"] = self.world.seq
+            self.ops.append(rec)
+        return body
+
+    def run(self, prefix=()):
+        from dulwich.repo import Repo
+        s = sched.Scheduler(self.world, {a: self.actor(a) for a in range(self.n)}, prefix)
+        with sched.Interposer(self.world):
+            s.run()
+        self.sched = s
+        r = Repo(self.root)
+        try:
+            tip = r.refs[self.ref]
+        except KeyError:
+            tip = None
+        seen, todo = set(), [tip] if tip else []
+        while todo:
+            x = todo.pop()
+            if x not in seen:
+                seen.add(x)
+                todo += r.object_store[x].parents
+        r.close()
+        self.tip = self.cid(tip) if tip else 0
+        self.history = {self.cid(x) for x in seen}
+        shutil.rmtree(self.base, ignore_errors=True)
+        return s
+
+    def trace(self, tid):
+        ops = sorted(self.ops, key=lambda o: o["c"])
+        commits = [{"id": 1, "parent": 0, "ok": True}]
+        for a in range(self.n):
+            i_ = self.cid(self.mine[a])
+            okd = any(o["a"] == a and o["res"] == 1 and not o["exc"] for o in self.ops)
+            commits.append({"id": i_, "parent": 1, "ok": okd})
+        return {"tid": tid, "init": [0 if self.create else 1], "final": [self.tip], "hinit": 1, "hfinal": 1,
+                "ops": [{k: o[k] for k in ("k", "n", "via", "old", "new", "res", "exc", "c", "r")} for o in ops],
+                "commits": commits, "tip": self.tip}
+
+
 # --------------------------------------------------------------------------- TLC batch
 def judge(ctx, traces, meta):
     d = ctx.tmpdir("lin")
@@ -1038,6 +1198,33 @@ def run(ctx):
                          "choices": s.choices(), "kind": kind}
             ctx.count()
             ctx.nontrivial(("commit", kind, n, packed, tuple((o["a"], o["res"], o["exc"], o["old"]) for o in r.ops), r.tip))
+    npush = 0
+    for kind, n, packed, maxp, limit in [("local-update", 2, False, ctx.pick(1, 2), ctx.pick(120, 3000)),
+                                         ("local-update", 2, True, ctx.pick(1, 2), ctx.pick(80, 3000)),
+                                         ("local-create", 2, False, ctx.pick(1, 2), ctx.pick(120, 3000)),
+                                         ("wire-update", 2, True, ctx.pick(1, 2), ctx.pick(100, 3000)),
+                                         ("wire-create", 2, False, ctx.pick(1, 2), ctx.pick(100, 3000)),
+                                         ("wire-atomic-update", 2, False, ctx.pick(1, 2), ctx.pick(150, 3000)),
+                                         ("wire-atomic-update", 2, True, ctx.pick(1, 2), ctx.pick(100, 3000))]:
+        def run_once(prefix, kind=kind, n=n, packed=packed):
+            r = PushRun(ctx, kind, n, packed)
+            r.run(prefix)
+            r.sched.run_obj = r
+            return r.sched
+        for s in sched.explore(run_once, max_preempt=maxp, limit=limit, rng=ctx.rng):
+            r = s.run_obj
+            tid += 1
+            npush += 1
+            t = r.trace(tid)
+            traces.append(t)
+            site = "dulwich/client.py:LocalGitClient.send_pack" if kind.startswith("local") else "dulwich/server.py:ReceivePackHandler"
+            meta[tid] = {"sig": f"{site}|LostPush|{kind} actors={n} packed={packed}",
+                         "desc": f"{n} concurrent pushes ({kind}, packed={packed}): results={[(o['a'], o['res'], o.get('excname')) for o in sorted(r.ops, key=lambda o: o['c'])]} "
+                                 f"tip={r.tip} history={sorted(r.history)}",
+                         "choices": s.choices(), "push_kind": kind, "n": n, "packed": packed}
+            ctx.count()
+            ctx.nontrivial(("push", kind, n, packed, tuple((o["a"], o["res"], o["exc"]) for o in r.ops), r.tip))
+    ctx.log(f"push histories: {npush} executions")
     ctx.log(f"commit histories: {ncommit} executions")
     tid = mp_part(ctx, traces, meta, tid)
     ctx.sample({"kind": "commit-history", "trace": traces[-1], "meta": meta[traces[-1]["tid"]]["desc"]})
@@ -1061,7 +1248,14 @@ def replay(ctx, path):
     obj = json.load(open(path))
     print(json.dumps(obj, indent=1)[:6000])
     m = obj.get("meta", {})
-    if "sym_layout" in m:
+    if "push_kind" in m:
+        r = PushRun(ctx, m["push_kind"], m["n"], m["packed"])
+        r.run(m["choices"])
+        t = r.trace(1)
+        print("re-executed:", [(o["a"], o["res"], o.get("excname")) for o in r.ops], "tip", r.tip)
+        ctx.known = []
+        judge(ctx, [t], {1: {"sig": obj["signature"], "desc": "replay"}})
+    elif "sym_layout" in m:
         r = SymRun(ctx, m["sym_layout"], m["actors"])
         r.run(m["choices"])
         t = r.trace(1)
